@@ -122,6 +122,11 @@ def check(run, prog, tier):
         ordn[f.name] = o + 1
         inst = "refill:%s:%s:%d" % (rel(f.file), f.name, o)
         why = REFILL_OK.get(f.name)
+        if why is None:
+            import helpers
+            own = helpers.owners(prog, f.name, set(REFILL_OK))
+            if own:
+                why = "file-local helper of %s: %s" % (", ".join(sorted(own)), "; ".join(REFILL_OK[o] for o in sorted(own)))
         if why is None and const_val(n["R"]) == 1:
             why = "stores the constant 1: the budget is cut to its last tick (the next instruction raises), never refilled"
         run.ob("C04-b", inst, why is not None, "%s — %s" % (show(n), why or "an LPC-callable efun resets the evaluation budget: a program can run forever by calling it in its loop"), f.file, n.get("l"), f.name,
